@@ -167,31 +167,9 @@ def check(run, F, tier):
     if extra:
         r4.violation("extra-adoption", "undetermined server reaches handlers other than CONNECT: %s" % extra)
     # who may write protocol_version
-    writers = set()
-    for f in F.fns.values():
-        for b in f["blocks"]:
-            for s in b["stmts"]:
-                if s["k"] == "assign":
-                    pr = s["lhs"]["p"]
-                    for el in pr:
-                        if isinstance(el, dict) and el.get("a") == conn.GC_ADT and el.get("n") == "protocol_version":
-                            writers.add(f["path"].split("::")[-1])
-                    # struct literal in new()
-                    rv = s["rv"]
-                    if rv["k"] == "agg" and rv.get("adt") == conn.GC_ADT:
-                        writers.add(f["path"].split("::")[-1])
-            t = b["term"]
-            if t["k"] == "call":
-                for a in t["args"]:
-                    pl = a.get("move") or a.get("copy")
-                    # &mut self.protocol_version passed to a callee
-                for s in b["stmts"]:
-                    if s["k"] == "assign" and s["rv"]["k"] == "ref" and s["rv"].get("mut"):
-                        for el in s["rv"]["place"]["p"]:
-                            if isinstance(el, dict) and el.get("a") == conn.GC_ADT and el.get("n") == "protocol_version":
-                                writers.add(f["path"].split("::")[-1] + "(&mut)")
-    if writers <= {"new", "process_recv_packet"} and "process_recv_packet" in writers:
+    extra, writers = conn.offending_writers(F, "protocol_version", {"new", "process_recv_packet"})
+    if not extra and writers - {"new"}:
         r4.ok("who-may-write", sorted(writers))
     else:
-        r4.violation("who-may-write", "protocol_version is written by %s (expected only new and process_recv_packet)" % sorted(writers))
+        r4.violation("who-may-write", "protocol_version is written by %s (expected only new and process_recv_packet, or private helpers of theirs)" % sorted(extra or writers))
     conn.prune_path_cache(F)
